@@ -946,17 +946,17 @@ Qed.
 
 (* ---------- supla_esp_countdown_timer_countdown ---------- *)
 (* first half: a free slot is taken and filled (state s3); second half: startstop or, repaired, the callback body *)
-Lemma countdown_arm e c ms gpio ch target sender s s' :
-  s' = countdown e c ms gpio ch target sender s ->
+Lemma countdown_arm c ms gpio ch target sender s s' :
+  s' = countdown_arm_slot c ms gpio ch target sender s ->
   Inv s -> Tr s -> 0 < ms < 4294967296 -> 0 <= ch < 255 -> (forall x, In x (slots s) -> s_chan x <> ch) -> NW s' ->
   (s' = s /\ forall x, In x (slots s) -> s_chan x <> 255) \/
-  exists s3, s' = (if e then cd_cb c (if t_on (tcd s3) then t_due (tcd s3) else now s3) s3 else startstop s3) /\
+  exists s3, s' = startstop s3 /\
     Inv s3 /\ Tr s3 /\ frame s s3 /\ now s3 = now s /\ tcd s3 = tcd s /\ delay s3 = delay s /\
     evo (fun k => k = ch) s s3 /\
     (forall y, In y (slots s3) -> active y = true -> In y (slots s) \/ (g_tl y = now s /\ s_left y = ms /\ s_chan y = ch)) /\
     (exists add, outs s3 = add ++ outs s /\ (forall o, In o add -> notfin o) /\ In (GArm (now s) ch ms target) add).
 Proof.
-  intros Es' I T Hms Hch NoCh N. unfold countdown in Es'.
+  intros Es' I T Hms Hch NoCh N. unfold countdown_arm_slot in Es'.
   rewrite (proj2 (find_slot_none_iff (slots s) 0 ch) NoCh) in Es'.
   destruct (find_slot (slots s) 0 255) as [i|] eqn:EF; [|left; split; [auto|apply (find_slot_none _ _ _ EF)]]. right.
   apply find_slot_some in EF. destruct EF as (R & Ech & _). replace (i - 0) with i in * by lia.
@@ -970,7 +970,7 @@ Proof.
   remember (t2_set ch ms s2) as s3 eqn:Es3.
   assert (F12 : frame s1 s2) by (subst s2; constructor; cbn; try reflexivity; try lia; eexists [_]; reflexivity).
   assert (P23 : passive s2 s3) by (subst s3; apply passive_t2_set).
-  assert (F3' : frame s3 s') by (rewrite Es'; destruct e; [apply cd_cb_frame|apply frame_startstop]).
+  assert (F3' : frame s3 s') by (rewrite Es'; apply frame_startstop).
   assert (F03 : frame s s3) by (eapply frame_trans; [exact FU|]; eapply frame_trans; [exact F12|]; apply frame_passive; auto).
   assert (N3 : NW s3) by (eapply NW_frame; eauto).
   assert (N0 : NW s) by (eapply NW_frame; eauto).
@@ -1019,30 +1019,61 @@ Proof.
         rewrite Forall_forall in F3. apply F3 in Ho. destruct o; cbn in *; auto.
 Qed.
 
+Lemma arm_slot_frame c ms gpio ch tg sd s : frame s (countdown_arm_slot c ms gpio ch tg sd s).
+Proof.
+  unfold countdown_arm_slot. destruct (match find_slot _ _ _ with Some _ => _ | None => _ end); [|apply frame_refl].
+  pose proof (frame_uptime s) as FU. destruct (uptime_msec s) as [s1 u]. cbn [fst] in FU.
+  set (s2 := set_slots _ _). assert (F12 : frame s1 s2) by (constructor; cbn; try reflexivity; try lia; eexists [_]; reflexivity).
+  eapply frame_trans; [exact FU|]. eapply frame_trans; [exact F12|]. eapply frame_trans; [apply frame_passive, passive_t2_set|].
+  apply frame_startstop.
+Qed.
+Lemma arm_slot_spec c ms gpio ch target sender s s' :
+  s' = countdown_arm_slot c ms gpio ch target sender s ->
+  Good s -> 0 < ms < 4294967296 -> 0 <= ch < 255 -> (forall x, In x (slots s) -> s_chan x <> ch) -> NW s' ->
+  Good s' /\ frame s s' /\ now s' = now s /\ evo (fun k => k = ch) s s'.
+Proof.
+  intros Es' [I T TT] Hms Hch NoCh N.
+  destruct (countdown_arm c ms gpio ch target sender s s' Es' I T Hms Hch NoCh N)
+    as [[-> _]|(s3 & E' & I3 & T3 & F03 & Now3 & _ & _ & E03 & _ & _)].
+  { split; [constructor; auto|]. split; [apply frame_refl|]. split; [auto|apply evo_refl]. }
+  pose proof (startstop_spec s3 (i_tmr _ I3)) as SS. cbv zeta in SS. rewrite <- E' in SS.
+  destruct SS as (E1 & E2 & E3 & E4 & E5 & E6 & E7 & E8 & E9 & E10 & TM & TT' & TD).
+  assert (F3' : frame s3 s') by (rewrite E'; apply frame_startstop).
+  split; [constructor|].
+  - eapply Inv_timer; eauto.
+  - destruct T3. constructor; rewrite ?E1, ?E7, ?E4; auto.
+  - auto.
+  - split; [eapply frame_trans; eauto|]. split; [lia|].
+    apply (evo_trans _ s s3 s'); auto. + lia. + apply evo_same_slots; auto.
+Qed.
+(* an evaluation never produces a slot on a channel that had none *)
+Lemma evald_nochan s s' ch :
+  0 <= ch < 255 -> Inv s -> length (slots s') = 8%nat ->
+  (forall i, (i < 8)%nat -> evald (now s) (now s') s (slot_at s i) (slot_at s' i)) ->
+  (forall x, In x (slots s) -> s_chan x <> ch) -> forall y, In y (slots s') -> s_chan y <> ch.
+Proof.
+  intros Hch I L EV No y Hy. destruct (in_slot_at s' y Hy) as (i & Hi & <-). rewrite L in Hi.
+  assert (Hin : In (slot_at s i) (slots s)) by (apply slot_at_in; rewrite (i_len _ I); auto).
+  destruct (EV i Hi) as [[A B]|(A & tl & R & [[D1 D2]|[D1 D2]])]; rewrite ?B, ?D2; cbn; auto. lia.
+Qed.
 Lemma countdown_spec e c ms gpio ch target sender s s' :
   s' = countdown e c ms gpio ch target sender s ->
   Good s -> 0 < ms < 4294967296 -> 0 <= ch < 255 -> (forall x, In x (slots s) -> s_chan x <> ch) -> NW s' ->
   Good s' /\ frame s s' /\ now s' <= now s + 8 * OP /\ evo (fun k => k = ch) s s'.
 Proof.
-  intros Es' [I T TT] Hms Hch NoCh N.
+  intros Es' G Hms Hch NoCh N. unfold countdown in Es'.
   assert (OPpos : 0 <= OP) by (destruct consts_ok; unfold OP; lia).
-  destruct (countdown_arm e c ms gpio ch target sender s s' Es' I T Hms Hch NoCh N)
-    as [[-> _]|(s3 & E' & I3 & T3 & F03 & Now3 & _ & _ & E03 & _ & _)].
-  { split; [constructor; auto|]. split; [apply frame_refl|]. split; [lia|apply evo_refl]. }
   destruct e.
-  - destruct (cd_cb_spec c _ s3 s' E' I3 T3 N) as (G' & F' & Nw & EV & _ & _).
+  - remember (cd_cb c (if t_on (tcd s) then t_due (tcd s) else now s) s) as s0 eqn:Es0.
+    assert (N0 : NW s0) by (eapply NW_frame; [|exact N]; rewrite Es'; apply arm_slot_frame).
+    destruct (cd_cb_spec c _ s s0 Es0 (g_inv _ G) (g_tr _ G) N0) as (G0 & F0 & Nw0 & EV & _ & _).
+    pose proof (evald_nochan s s0 ch Hch (g_inv _ G) (i_len _ (g_inv _ G0)) EV NoCh) as NoCh0.
+    destruct (arm_slot_spec c ms gpio ch target sender s0 s' Es' G0 Hms Hch NoCh0 N) as (G' & F' & Nw' & E').
     split; [auto|]. split; [eapply frame_trans; eauto|]. split; [lia|].
-    apply (evo_trans _ s s3 s'); auto. + lia.
-    + apply evald_evo; auto. apply (i_len _ (g_inv _ G')).
-  - pose proof (startstop_spec s3 (i_tmr _ I3)) as SS. cbv zeta in SS. rewrite <- E' in SS.
-    destruct SS as (E1 & E2 & E3 & E4 & E5 & E6 & E7 & E8 & E9 & E10 & TM & TT' & TD).
-    assert (F3' : frame s3 s') by (rewrite E'; apply frame_startstop).
-    split; [constructor|].
-    + eapply Inv_timer; eauto.
-    + destruct T3. constructor; rewrite ?E1, ?E7, ?E4; auto.
-    + auto.
-    + split; [eapply frame_trans; eauto|]. split; [lia|].
-      apply (evo_trans _ s s3 s'); auto. * lia. * apply evo_same_slots; auto.
+    apply (evo_trans _ s s0 s'); auto. + apply F0.
+    + apply evald_evo; auto. apply (g_inv _ G). apply (i_len _ (g_inv _ G0)).
+  - destruct (arm_slot_spec c ms gpio ch target sender s s' Es' G Hms Hch NoCh N) as (G' & F' & Nw' & E').
+    split; [auto|]. split; [auto|]. split; [lia|auto].
 Qed.
 
 (* ---------- commands ---------- *)
@@ -1375,11 +1406,7 @@ Proof.
 Qed.
 Lemma countdown_frame e c ms gpio ch tg sd s : frame s (countdown e c ms gpio ch tg sd s).
 Proof.
-  unfold countdown. destruct (match find_slot _ _ _ with Some _ => _ | None => _ end); [|apply frame_refl].
-  pose proof (frame_uptime s) as FU. destruct (uptime_msec s) as [s1 u]. cbn [fst] in FU.
-  set (s2 := set_slots _ _). assert (F12 : frame s1 s2) by (constructor; cbn; try reflexivity; try lia; eexists [_]; reflexivity).
-  eapply frame_trans; [exact FU|]. eapply frame_trans; [exact F12|]. eapply frame_trans; [apply frame_passive, passive_t2_set|].
-  destruct e; [apply cd_cb_frame|apply frame_startstop].
+  unfold countdown. eapply frame_trans; [|apply arm_slot_frame]. destruct e; [apply cd_cb_frame|apply frame_refl].
 Qed.
 Lemma sdt_frame e c ch nv dur sd s : frame s (set_duration_timer e c ch nv dur sd s).
 Proof.
@@ -1831,36 +1858,64 @@ Qed.
 Lemma finsrc_notfin s s' add : outs s' = add ++ outs s -> (forall o, In o add -> notfin o) -> finsrc s s'.
 Proof. intros E F. exists add. split; auto. intros tcb ch tg t0 dur u0 u H. apply F in H. contradiction. Qed.
 
+Lemma arm_slot_J e S c ms gpio ch target sender s s' :
+  s' = countdown_arm_slot c ms gpio ch target sender s ->
+  Good s -> J e S s -> (e = true -> forall y, In y (slots s) -> active y = true -> now s <= g_tl y + BQ) ->
+  0 < ms < 4294967296 -> 0 <= ch < 255 -> (forall x, In x (slots s) -> s_chan x <> ch) -> NW s' ->
+  J e S s' /\ finsrc s s'.
+Proof.
+  intros Es' [I T TT] [Jd Jq Jo] Fr Hms Hch NoCh N.
+  destruct (countdown_arm c ms gpio ch target sender s s' Es' I T Hms Hch NoCh N)
+    as [[-> _]|(s3 & E' & I3 & T3 & F03 & Now3 & Tc3 & Dl3 & E03 & Sl3 & (add & O3 & NF3 & _))].
+  { split; [constructor; auto|apply finsrc_refl]. }
+  assert (FS03 : finsrc s s3) by (eapply finsrc_notfin; eauto).
+  assert (BQpos : 0 <= BQ) by (destruct consts_ok; unfold BQ, OP; lia).
+  pose proof (startstop_spec s3 (i_tmr _ I3)) as SS. cbv zeta in SS. rewrite <- E' in SS.
+  destruct SS as (E1 & E2 & E3 & E4 & E5 & E6 & E7 & E8 & E9 & E10 & TM & TT' & TD).
+  split; [constructor|].
+  - intros On. destruct TD as [[Et Ed]|[Ea|Eoff]].
+    + rewrite Et in *. rewrite Tc3 in *. specialize (Jd On). lia.
+    + lia.
+    + congruence.
+  - intros He y Hy Ay. rewrite E1 in Hy. destruct (TT' y ltac:(rewrite E1; exact Hy) Ay) as (On & _).
+    destruct TD as [[Et Ed]|[Ea|Eoff]]; [| |congruence].
+    + rewrite Et, Tc3 in *. destruct (Sl3 y Hy Ay) as [Hin|(A & _)].
+      * apply (Jq He y Hin Ay).
+      * specialize (Jd On). lia.
+    + rewrite Ea, Now3. destruct (Sl3 y Hy Ay) as [Hin|(A & _)]; [specialize (Fr He y Hin Ay); lia|lia].
+  - intros He tcb ch0 tg t0 dur u0 u H. rewrite E7, O3 in H. apply in_app_or in H.
+    destruct H as [H|H]; [apply NF3 in H; contradiction|]. eapply Jo; eauto.
+  - apply (finsrc_trans (fun k => k = ch) s s3 s'); auto; [lia|]. exists []. split; auto. intros tcb ch0 tg t0 dur u0 u H. contradiction.
+Qed.
 Lemma countdown_J e S c ms gpio ch target sender s s' :
   s' = countdown e c ms gpio ch target sender s ->
   Good s -> J e S s -> 0 < ms < 4294967296 -> 0 <= ch < 255 -> (forall x, In x (slots s) -> s_chan x <> ch) ->
   NW s' -> Slack S (outs s') -> 0 <= S ->
   J e S s' /\ finsrc s s'.
 Proof.
-  intros Es' [I T TT] [Jd Jq Jo] Hms Hch NoCh N SL HS.
-  destruct (countdown_arm e c ms gpio ch target sender s s' Es' I T Hms Hch NoCh N)
-    as [[-> _]|(s3 & E' & I3 & T3 & F03 & Now3 & Tc3 & Dl3 & E03 & Sl3 & (add & O3 & NF3 & _))].
-  { split; [constructor; auto|apply finsrc_refl]. }
-  assert (FS03 : finsrc s s3) by (eapply finsrc_notfin; eauto).
-  assert (OT3 : e = true -> forall tcb ch0 tg t0 dur u0 u, In (GFinish tcb ch0 tg t0 dur u0 u) (outs s3) -> tcb < t0 + dur * 1000 + OTB S).
-  { intros He tcb ch0 tg t0 dur u0 u H. rewrite O3 in H. apply in_app_or in H. destruct H as [H|H]; [apply NF3 in H; contradiction|].
-    eapply Jo; eauto. }
-  assert (BQpos : 0 <= BQ) by (destruct consts_ok; unfold BQ, OP; lia).
+  intros Es' G Jj Hms Hch NoCh N SL HS. unfold countdown in Es'.
   destruct e.
-  - destruct (cd_cb_J true S c _ s3 s' E' I3 T3 N SL HS) as (J' & FS); auto.
-    + rewrite Tc3, Now3. exact Jd.
-    + intros _ x Hx Ax. destruct (Sl3 x Hx Ax) as [Hin|(A & _)]; [|left; lia]. right.
-      destruct (TT x Hin Ax) as (On & (_ & Hc) & Hp). rewrite Tc3, On.
-      specialize (Jq eq_refl x Hin Ax). nia.
-    + split; auto. apply (finsrc_trans (fun k => k = ch) s s3 s'); auto. lia.
-  - pose proof (startstop_spec s3 (i_tmr _ I3)) as SS. cbv zeta in SS. rewrite <- E' in SS.
-    destruct SS as (E1 & E2 & E3 & E4 & E5 & E6 & E7 & E8 & E9 & E10 & TM & TT' & TD).
-    split; [constructor; try (intros; discriminate)|].
-    + intros On. destruct TD as [[Et Ed]|[Ea|Eoff]].
-      * rewrite Et in *. rewrite Tc3 in *. specialize (Jd On). lia.
-      * lia.
-      * congruence.
-    + apply (finsrc_trans (fun k => k = ch) s s3 s'); auto; [lia|]. exists []. split; auto. intros tcb ch0 tg t0 dur u0 u H. contradiction.
+  - remember (cd_cb c (if t_on (tcd s) then t_due (tcd s) else now s) s) as s0 eqn:Es0.
+    assert (F0' : frame s0 s') by (rewrite Es'; apply arm_slot_frame).
+    assert (N0 : NW s0) by (eapply NW_frame; eauto).
+    assert (SL0 : Slack S (outs s0)) by (eapply Slack_frame; eauto).
+    destruct (cd_cb_spec c _ s s0 Es0 (g_inv _ G) (g_tr _ G) N0) as (G0 & F0 & Nw0 & EV & _ & _).
+    pose proof (evald_nochan s s0 ch Hch (g_inv _ G) (i_len _ (g_inv _ G0)) EV NoCh) as NoCh0.
+    destruct (cd_cb_J true S c _ s s0 Es0 (g_inv _ G) (g_tr _ G) N0 SL0 HS) as (J0 & FS0).
+    + apply (j_due _ _ _ Jj).
+    + intros _ x Hx Ax. right. destruct (g_t1 _ G x Hx Ax) as (On & (_ & Hc) & Hp). rewrite On.
+      pose proof (j_q _ _ _ Jj eq_refl x Hx Ax). nia.
+    + apply (j_ot _ _ _ Jj).
+    + assert (Fr : true = true -> forall y, In y (slots s0) -> active y = true -> now s0 <= g_tl y + BQ).
+      { intros _ y Hy Ay. destruct (in_slot_at s0 y Hy) as (i & Hi & <-). rewrite (i_len _ (g_inv _ G0)) in Hi.
+        fold BQ in Nw0. destruct (EV i Hi) as [[A B]|(A & tl & R & [[D1 D2]|[D1 D2]])].
+        - rewrite B in Ay. congruence.
+        - rewrite D2. cbn [g_tl slot_run]. lia.
+        - rewrite D2 in Ay. discriminate. }
+      destruct (arm_slot_J true S c ms gpio ch target sender s0 s' Es' G0 J0 Fr Hms Hch NoCh0 N) as (J' & FS').
+      split; auto. apply (finsrc_trans (fun _ => False) s s0 s'); auto. * apply F0.
+      * apply evald_evo; auto. apply (g_inv _ G). apply (i_len _ (g_inv _ G0)).
+  - apply (arm_slot_J false S c ms gpio ch target sender s s' Es' G Jj); auto. intros; discriminate.
 Qed.
 
 Lemma JF_passive e S s s' : passive s s' -> Good s -> J e S s -> J e S s' /\ finsrc s s'.
@@ -2578,7 +2633,7 @@ Theorem restore_one_thm e c s a r :
      for the saved remaining time with the opposite target *)
   (0 < T < 2147483648 -> (exists x, In x (slots s) /\ s_chan x = 255) ->
    v = 1 \/ (getz (time2 s) (r_chan r) = 0 /\ hasf (getz (chfl s) a) CHFLAG_COUNTDOWN = true) ->
-   In (GArm (now s) (r_chan r) T (1 - v)) (outs s')).
+   exists t0, now s <= t0 <= now s + 8 * OP /\ In (GArm t0 (r_chan r) T (1 - v)) (outs s')).
 Proof.
   intros W G Hr EFC EFG Hfl v T s' Hv N.
   pose proof (wf_chan _ W r Hr) as Hc. pose proof (wf_gpio _ W r Hr) as Hg.
@@ -2590,10 +2645,13 @@ Proof.
   split; [apply (pin_relay_hi c (r_gpio r) v a r s1); auto; lia|].
   intros HT (xf & Hxf & Exf) Hcase.
   assert (P : passive s1 (relay_hi c (r_gpio r) v s1)) by apply passive_relay_hi.
-  destruct (pa_outs _ _ P) as (ap & Eo & _). rewrite Eo. apply in_or_app. right.
+  destruct (pa_outs _ _ P) as (ap & Eo & _).
   assert (N1 : NW s1) by (eapply NW_passive; eauto).
   assert (E8 : s8 v = v) by (destruct Hv as [->| ->]; reflexivity).
   assert (E32 : s32 T = T) by (unfold s32; rewrite Z.mod_small by lia; destruct (T <? 2147483648) eqn:E; auto; apply Z.ltb_ge in E; lia).
+  cut (exists t0, now s <= t0 <= now s + 8 * OP /\ In (GArm t0 (r_chan r) T (1 - v)) (outs s1)).
+  { intros (t0 & Ht & Hin). exists t0. split; auto. rewrite Eo. apply in_or_app. right. exact Hin. }
+  clear P ap Eo.
   unfold s1 in *. rewrite E8, E32 in *. clear s1.
   unfold set_duration_timer in *.
   set (stair := (r_chan r <? ST_T2_COUNT) && (r_chan r <? T2_COUNT) && (0 <? getz (time2 s) (r_chan r))) in *.
@@ -2616,17 +2674,37 @@ Proof.
   set (s2 := countdown e c T (r_gpio r) (r_chan r) (if v =? 0 then 1 else 0) 0 s1) in *.
   assert (P2 : passive s2 (if hasf f CHFLAG_COUNTDOWN then ext_changed c (r_chan r) s2 else s2))
     by (destruct (hasf f _); [apply passive_ext_changed|apply passive_refl]).
-  destruct (pa_outs _ _ P2) as (a2 & Eo2 & _). rewrite Eo2. apply in_or_app. right.
+  destruct (pa_outs _ _ P2) as (a2 & Eo2 & _).
   assert (N2 : NW s2) by (eapply NW_passive; eauto).
-  destruct (countdown_arm e c T (r_gpio r) (r_chan r) (if v =? 0 then 1 else 0) 0 s1 s2 eq_refl (g_inv _ G1) (g_tr _ G1) ltac:(lia) ltac:(lia) NoCh N2)
+  cut (exists t0, now s <= t0 <= now s + 8 * OP /\ In (GArm t0 (r_chan r) T (1 - v)) (outs s2)).
+  { intros (t0 & Ht & Hin). exists t0. split; auto. rewrite Eo2. apply in_or_app. right. exact Hin. }
+  clear P2 a2 Eo2.
+  destruct (disarm_free c (r_chan r) s (ex_intro _ xf (conj Hxf Exf))) as (z & Hz & Ez). fold s1 in Hz.
+  assert (OPpos : 0 <= OP) by (unfold OP; lia).
+  (* the state in which the slot is taken: after the evaluation of the running slots (repaired code) *)
+  assert (K : exists s0, s2 = countdown_arm_slot c T (r_gpio r) (r_chan r) (if v =? 0 then 1 else 0) 0 s0 /\ Good s0 /\
+              now s <= now s0 <= now s + 8 * OP /\ (forall x, In x (slots s0) -> s_chan x <> r_chan r) /\
+              (exists z0, In z0 (slots s0) /\ s_chan z0 = 255)).
+  { unfold s2, countdown. destruct e.
+    - remember (cd_cb c (if t_on (tcd s1) then t_due (tcd s1) else now s1) s1) as s0 eqn:Es0.
+      exists s0. split; [reflexivity|].
+      assert (N0 : NW s0) by (eapply NW_frame; [|exact N2]; unfold s2, countdown; rewrite <- Es0; apply arm_slot_frame).
+      destruct (cd_cb_spec c _ s1 s0 Es0 (g_inv _ G1) (g_tr _ G1) N0) as (G0 & F0 & Nw0 & EV & _ & _).
+      split; [auto|]. split; [destruct F0; lia|]. split.
+      + apply (evald_nochan s1 s0 (r_chan r) ltac:(lia) (g_inv _ G1) (i_len _ (g_inv _ G0)) EV NoCh).
+      + destruct (in_slot_at s1 z Hz) as (i & Hi & Ei). rewrite (i_len _ (g_inv _ G1)) in Hi.
+        exists (slot_at s0 i). split; [apply slot_at_in; rewrite (i_len _ (g_inv _ G0)); auto|].
+        destruct (EV i Hi) as [[A B]|(A & tl & R & _)].
+        * rewrite B, Ei. exact Ez.
+        * rewrite Ei in A. unfold active in A. rewrite Ez in A. cbn in A. discriminate.
+    - exists s1. split; [reflexivity|]. split; [auto|]. split; [lia|]. split; [auto|]. exists z. auto. }
+  destruct K as (s0 & Es2 & G0 & Hn0 & NoCh0 & (z0 & Hz0 & Ez0)).
+  destruct (countdown_arm c T (r_gpio r) (r_chan r) (if v =? 0 then 1 else 0) 0 s0 s2 Es2 (g_inv _ G0) (g_tr _ G0) ltac:(lia) ltac:(lia) NoCh0 N2)
     as [[_ NoFree]|(s3 & E' & I3 & T3 & F03 & Now3 & _ & _ & _ & _ & (add & O3 & _ & HA))].
-  - exfalso. destruct (disarm_free c (r_chan r) s (ex_intro _ xf (conj Hxf Exf))) as (z & Hz & Ez). apply (NoFree z); auto.
-  - rewrite E'.
-    assert (F3' : frame s3 (if e then cd_cb c (if t_on (tcd s3) then t_due (tcd s3) else now s3) s3 else startstop s3))
-      by (destruct e; [apply cd_cb_frame|apply frame_startstop]).
-    destruct (fr_outs _ _ F3') as (a3 & Eo3). rewrite Eo3. apply in_or_app. right. rewrite O3. apply in_or_app. left.
-    replace (1 - v) with (if v =? 0 then 1 else 0) by (destruct Hv as [->| ->]; reflexivity).
-    rewrite <- Nn1. exact HA.
+  - exfalso. apply (NoFree z0); auto.
+  - exists (now s0). split; [exact Hn0|]. rewrite E'.
+    destruct (fr_outs _ _ (frame_startstop s3)) as (a3 & Eo3). rewrite Eo3. apply in_or_app. right. rewrite O3. apply in_or_app. left.
+    replace (1 - v) with (if v =? 0 then 1 else 0) by (destruct Hv as [->| ->]; reflexivity). exact HA.
 Qed.
 
 (* ---------- the hypotheses are satisfiable: decidable versions, evaluated on the witness histories ---------- *)
